@@ -79,7 +79,7 @@ def real_op_cases(tier, seed, f32=False):
     # softmax is row-wise: rows at very different levels in one array (each row's own exponentials are ordinary numbers)
     # (spreads of several hundred only mean something in double precision; in single precision they are out of range)
     for levels in ([-70.0, 30.0], [-40.0, 40.0], [60.0, -60.0, 0.0], [-75.0, -20.0, 25.0, 70.0], [5.0, -80.0]) + \
-            (() if f32 else ([-400.0, 400.0], [300.0, -350.0, 0.0], [650.0, -650.0])):
+            (([-95.0, -97.0], [-98.0, 0.0]) if f32 else ([-400.0, 400.0], [300.0, -350.0, 0.0], [650.0, -650.0], [-720.0, -725.0], [-735.0, 0.0])):
         for n in (2, 3):
             d = [len(levels), n]
             vals = [lv + rnd.uniform(-1.0, 1.0) for lv in levels for _ in range(n)]
@@ -285,6 +285,24 @@ def real_layer_cases(tier, seed, f32=False):
                      {"op": "backward", "args": [4]},
                      {"op": "cost", "kind": "mse", "args": [2, 3], "res": 5}, {"op": "sum_all", "args": [5]}]
             cases.append(steps)
+    # probabilities that are subnormal numbers of the format (exact operands): ln of them is an ordinary number
+    tiny = [1e-42, 0.5, 3e-44, 0.25] if f32 else [1e-310, 0.5, 3e-320, 0.25]
+    for tgt in ([1.0, 1.0, 1.0, 0.0], [1.0, 0.0, 0.0, 1.0]):
+        cases.append([RESET, rleaf(1, [2, 2], tiny, trk=True, f32=f32), rleaf(2, [2, 2], tgt, f32=f32),
+                      {"op": "cost", "kind": "ce", "args": [1, 2], "res": 3}, {"op": "sum_all", "args": [3]}, op("ln", [1], 4)])
+    # one cross-entropy / mse closure applied to batches of different sizes in turn
+    for order in ([3, 1, 2], [1, 4, 2], [2, 3]):
+        steps = [RESET]
+        h = 1
+        for b in order:
+            d = [b, 3]
+            steps += [rleaf(h, d, draw(rnd, 3 * b, "pos"), trk=True, f32=f32), op("softmax", [h], h + 1),
+                      rleaf(h + 2, d, [float(k % 3 == 1) for k in range(3 * b)], f32=f32),
+                      {"op": "cost", "kind": "ce", "args": [h + 1, h + 2], "res": h + 3}, {"op": "sum_all", "args": [h + 3]},
+                      {"op": "backward", "args": [h + 3]},
+                      {"op": "cost", "kind": "mse", "args": [h + 1, h + 2], "res": h + 4}, {"op": "sum_all", "args": [h + 4]}]
+            h += 5
+        cases.append(steps)
     # cross-entropy / mse with a target of lower rank than the output ([n] against [1, n]): the leading dimension
     # that divides is the OUTPUT's
     for n in (2, 3, 5):
